@@ -229,7 +229,7 @@ class G:
         body = self.arg(self.rng.randint(1, 5))
         if self.rng.random() < 0.2:
             # the argument ends with a macro that looks for a further (optional or missing) argument behind the closing brace
-            body['items'].append({'t': 'rawword', 'w': self.rng.choice(['\\footnotemark', '\\mbox', '\\textbf', '\\linebreak', '\\footnotemark '])})
+            body['items'].append({'t': 'rawword', 'w': self.rng.choice(['\\footnotemark', '\\footnotemark', '\\printbibliography', '\\footnotemark '])})
         return {'t': 'foreign', 'lang': self.rng.choice(LANG_NAMES), 'body': body}
 
     def c_hspace(self):
